@@ -92,6 +92,48 @@ def run(P, R, tier):
                     ok = lam.body.func.attr == 'intersects_bounds' and [norm(a) for a in lam.body.args] == [f.params[1]]
         R.check(ok, 'C06.a', f, None, 'DaskGeoSeries.intersects_bounds maps the pandas intersects_bounds with the same box',
                 'DaskGeoSeries.intersects_bounds does not map the pandas intersects_bounds(bounds)', construct='intersects_bounds delegation')
+    # ... on EVERY path: each return of these operations maps a per-partition function each of whose returns is the pandas operation of the same name on the
+    # partition.  A per-partition shortcut decided from the partition's bounds ("the box covers it: everything that is not missing intersects") answers for
+    # empty geometries and partial rows without looking at them.
+    def _per_partition_ok(g, name):
+        """every return of the per-partition callable g passes the pandas op `name` of its first parameter"""
+        if isinstance(g, ast.Lambda):
+            p0 = g.args.args[0].arg if g.args.args else None
+            return any(isinstance(x, ast.Attribute) and x.attr == name and isinstance(x.value, ast.Name) and x.value.id == p0 for x in ast.walk(g.body)), None
+        p0 = g.params[0] if g.params else None
+        for r_ in [x for x in walk_own(g.node) if isinstance(x, ast.Return)]:
+            e_ = astq.expand(g, r_.value) if r_.value is not None else None
+            if e_ is None or not any(isinstance(x, ast.Attribute) and x.attr == name and isinstance(x.value, ast.Name) and x.value.id == p0 for x in ast.walk(e_)):
+                return False, r_
+        return True, None
+    for name in ('bounds', 'area', 'length', 'intersects_bounds'):
+        m = DS.members.get(name)
+        if not m:
+            continue
+        f = m[1]
+        for s_ in [x for x in walk_own(f.node) if isinstance(x, ast.Return)]:
+            v = astq.trace(f, s_.value) if isinstance(s_.value, ast.Name) else s_.value
+            okm = isinstance(v, ast.Call) and isinstance(v.func, ast.Attribute) and v.func.attr == 'map_partitions' and norm(v.func.value) == 'self' and v.args
+            why = 'it is not a map_partitions over the partitions of this series'
+            node = s_
+            if okm:
+                a0 = v.args[0]
+                g = a0 if isinstance(a0, ast.Lambda) else None
+                if g is None and isinstance(a0, ast.Name):
+                    r_ = P.resolve_expr_static(f.mod, a0, local=f)
+                    if r_ and r_[0] == 'func':
+                        g = r_[1]
+                    elif r_ and r_[0] == 'localassign' and isinstance(r_[2], ast.Lambda):
+                        g = r_[2]
+                if g is None:
+                    okm, why = False, f'the per-partition callable `{norm(a0)}` could not be resolved'
+                else:
+                    okm, bad_ret = _per_partition_ok(g, name)
+                    if not okm:
+                        why = f'its per-partition function answers `{norm(bad_ret) if bad_ret is not None else "?"}` without the pandas `{name}` of the partition'
+            R.check(bool(okm), 'C06.a', f, node, f'every return of DaskGeoSeries.{name} maps the pandas `{name}` over all partitions',
+                    f'`{norm(s_)[:80]}` in DaskGeoSeries.{name}: {why} (rows are answered from partition-level knowledge - empty geometries, partial rows - instead of by the pandas operation)',
+                    construct=f'DaskGeoSeries.{name}: {norm(s_)[:50]}')
     for ci in (DS, DF):
         bs = ci.members.get('build_sindex')
         if bs:
@@ -259,6 +301,9 @@ def run(P, R, tier):
         elif o.rule in ('C12.a', 'C12.b', 'C12.c', 'C12.d', 'C12.e', 'C12.f', 'C12.h', 'C12.i'):
             R._add('C06.d', (o.path, o.site.split('::')[-1]), None, o.status, f'[{o.rule}] a frame read with bounds=/geometry= must carry, for every geometry column, the bounds of exactly the partitions it kept: ' + o.detail, construct=o.construct)
 
+    # the frame pack_partitions_to_parquet returns holds the rows of THIS run only: each part is read from the sub-parts named by the run, after the
+    # listing == expected gate (C19.b); left-overs of an interrupted earlier run in the same directories must not be merged in
+    common.forward(P, R, 'C19', ['C19.b'], 'C06.d', 'the packed frame is read back from exactly the sub-parts this run wrote', floor=2)
     # ---------------------------------------------------------------- C06.e
     sj = P.func('spatialpandas.tools.sjoin', '_sjoin_dask_pandas')
     loop = None
